@@ -26,6 +26,7 @@ PROPS = {
     "C14": "analysis.props.p_c14",
     "C15": "analysis.props.p_c15",
     "C16": "analysis.props.p_c16",
+    "C17": "analysis.props.p_c17",
     "C18": "analysis.props.p_c18",
     "C19": "analysis.props.p_c19",
 }
